@@ -61,12 +61,12 @@ var Log = &logRing{}
 // ---- process-wide hook handler ------------------------------------------------
 
 var (
-	evMu      sync.Mutex
-	evCond    = sync.NewCond(&evMu)
-	tornDown  = map[uint64]bool{}
-	handled   = map[uint64][]int{} // packet-handled events per service (only when enabled)
+	evMu       sync.Mutex
+	evCond     = sync.NewCond(&evMu)
+	tornDown   = map[uint64]bool{}
+	handled    = map[uint64][]int{} // packet-handled events per service (only when enabled)
 	recHandled atomic.Bool
-	yieldFn   atomic.Value // func(point string, obj interface{})
+	yieldFn    atomic.Value // func(point string, obj interface{})
 )
 
 func init() {
@@ -249,8 +249,85 @@ func New(bufSize int64, authName string) (*Broker, error) {
 }
 
 // Dial opens a new in-process connection to the broker.
-func (b *Broker) Dial(name string) *Conn {
-	cli, srv := net.Pipe()
+func (b *Broker) Dial(name string) *Conn { return b.DialOpt(name, false) }
+
+// eofConn is a transport whose Read returns the final bytes together with
+// the end-of-stream error in one call when they arrive together (as
+// crypto/tls does for TLS <= 1.2); io.Reader allows that.
+type eofConn struct {
+	net.Conn
+	ch   chan eofChunk
+	cur  []byte
+	err  error
+	next *eofChunk
+}
+
+type eofChunk struct {
+	b   []byte
+	err error
+}
+
+func newEOFConn(c net.Conn) *eofConn {
+	e := &eofConn{Conn: c, ch: make(chan eofChunk, 4)}
+	go func() {
+		for {
+			buf := make([]byte, 8192)
+			n, err := c.Read(buf)
+			e.ch <- eofChunk{buf[:n], err}
+			if err != nil {
+				close(e.ch)
+				return
+			}
+		}
+	}()
+	return e
+}
+
+func (e *eofConn) Read(p []byte) (int, error) {
+	if len(e.cur) == 0 && e.err == nil {
+		var ck eofChunk
+		if e.next != nil {
+			ck, e.next = *e.next, nil
+		} else {
+			var ok bool
+			if ck, ok = <-e.ch; !ok {
+				return 0, net.ErrClosed
+			}
+		}
+		e.cur, e.err = ck.b, ck.err
+		if len(e.cur) > 0 && e.err == nil {
+			// does the end of the stream follow at once? then deliver it with the data
+			select {
+			case nx, ok := <-e.ch:
+				if ok {
+					if len(nx.b) == 0 && nx.err != nil {
+						e.err = nx.err
+					} else {
+						e.next = &nx
+					}
+				}
+			case <-time.After(300 * time.Microsecond):
+			}
+		}
+	}
+	n := copy(p, e.cur)
+	e.cur = e.cur[n:]
+	if len(e.cur) == 0 && e.err != nil {
+		err := e.err
+		return n, err
+	}
+	return n, nil
+}
+
+// DialOpt is Dial with a choice of transport: with eofWithData the server
+// side reads through a transport that may return the last bytes and the
+// end-of-stream error from the same Read call.
+func (b *Broker) DialOpt(name string, eofWithData bool) *Conn {
+	cli, srvPipe := net.Pipe()
+	var srv net.Conn = srvPipe
+	if eofWithData {
+		srv = newEOFConn(srvPipe)
+	}
 	c := &Conn{Client: wire.New(name, cli), B: b, served: make(chan struct{})}
 	b.mu.Lock()
 	b.conns = append(b.conns, c)
